@@ -25,7 +25,7 @@ import ast
 import copy
 import itertools
 
-from .loader import FuncInfo, clone
+from .loader import FuncInfo, clone, call_name
 
 MAX_DEPTH = 4
 
@@ -226,7 +226,13 @@ class Flattener(object):
                 if 'staticmethod' in deco:
                     return callee, None
                 return None
-            return None
+            if f.value.id.startswith('__mod_'):
+                rel = getattr(prog, '_mod_mangle', {}).get(f.value.id)
+                callee = prog.functions.get((rel, f.attr)) if rel else None
+                return (self._foreign(callee), None) if callee is not None else None
+            return self._resolve_imported(f)
+        if isinstance(f, ast.Attribute):
+            return self._resolve_imported(f)
         if isinstance(f, ast.Name):
             if f.id in self.local_defs:
                 return self.local_defs[f.id], None
@@ -238,7 +244,77 @@ class Flattener(object):
             callee = prog.functions.get((self.fi.module.rel, f.id))
             if callee is not None:
                 return callee, None
+            return self._resolve_imported(f)
         return None
+
+    # ---- functions of other modules ----------------------------------------------------------------
+    def _resolve_imported(self, fexpr):
+        """`utils._helper(..)`, `sfc_models.utils._helper(..)`, `_helper(..)` after `from .utils import _helper`: the module-level
+        function the import statements of the caller's module make this expression denote (the head name must not be a local)"""
+        head = fexpr
+        while isinstance(head, ast.Attribute):
+            head = head.value
+        if not isinstance(head, ast.Name):
+            return None
+        node_ = getattr(self, '_node', None) or self.fi.node
+        if head.id in _stored_names(node_) or head.id in {a.arg for a in self.fi.node.args.args}:
+            return None
+        callee = self.prog.imported_function(self.fi.module, fexpr)
+        if callee is None or callee.module is self.fi.module:
+            return (callee, None) if callee is not None else None
+        fc = self._foreign(callee)
+        return (fc, None) if fc is not None else None
+
+    def _foreign(self, callee):
+        """a module-level function of another module, prepared for being read inside this module: calls to its own module's
+        functions are qualified (`__mod_<module>.g(..)`, which `resolve` understands); every other global it reads must mean the same
+        thing here (a builtin, or bound by the same import in both modules) or nothing at all here (it then stays an unknown name)."""
+        if callee is None or callee.module is self.fi.module:
+            return callee
+        cache = self.prog.__dict__.setdefault('_foreign_cache', {})
+        ck = (callee.key, self.fi.module.rel)
+        if ck in cache:
+            return cache[ck]
+        cache[ck] = None
+        import builtins
+        from .loader import module_import_map
+        node = clone(callee.node)
+        local = _stored_names(node) | {a.arg for a in node.args.posonlyargs + node.args.args + node.args.kwonlyargs}
+        here_imports = module_import_map(self.fi.module)
+        there_imports = module_import_map(callee.module)
+        here_globals = set(here_imports) | {st.name for st in self.fi.module.tree.body if isinstance(st, (ast.FunctionDef, ast.ClassDef))} | \
+            {t.id for st in self.fi.module.tree.body if isinstance(st, ast.Assign) for t in st.targets if isinstance(t, ast.Name)}
+        mangle = '__mod_' + callee.module.rel.replace('/', '_').replace('\\', '_').replace('.', '_')
+        self.prog.__dict__.setdefault('_mod_mangle', {})[mangle] = callee.module.rel
+        ok = True
+
+        class Q(ast.NodeTransformer):
+            def visit_Name(self_, n):
+                nonlocal ok
+                if not isinstance(n.ctx, ast.Load) or n.id in local or hasattr(builtins, n.id):
+                    return n
+                if (callee.module.rel, n.id) in self.prog.functions:
+                    return ast.copy_location(ast.Attribute(value=ast.Name(id=mangle, ctx=ast.Load()), attr=n.id, ctx=ast.Load()), n)
+                if n.id in there_imports and here_imports.get(n.id) == there_imports[n.id]:
+                    return n
+                if n.id in self.prog.classes and self.prog.classes[n.id].module is callee.module and n.id not in here_globals:
+                    return n
+                if n.id not in here_globals and n.id not in self.caller_names:
+                    return n
+                ok = False
+                return n
+        node = Q().visit(node)
+        if not ok:
+            return None
+        ast.fix_missing_locations(node)
+        for n in ast.walk(node):
+            for child in ast.iter_child_nodes(n):
+                child._parent = n
+        fc = FuncInfo(callee.module, node, None)
+        fc.qualname = callee.qualname
+        fc.foreign_of = callee
+        cache[ck] = fc
+        return fc
 
     def _is_copy_of_self(self, e, cls, depth=0):
         if not isinstance(e, ast.Call) or depth > 2:
@@ -1275,6 +1351,256 @@ class Flattener(object):
             return stmts[:i + 1]
         return stmts
 
+    def _coalesce_batons(self, node):
+        """Values handed from one inlined helper to the next leave chains of plain copies behind
+        (`values = initial; initial__i2 = values; ...; values = initial__i2`).  Two local names related by such a copy are merged
+        into one when they do not interfere (the classic coalescing condition): at every binding of one of them that is not a copy
+        of the other, the other is dead.  Then at every read the two hold the same value or only one of them is ever read again, so
+        renaming both to one name (and dropping the self-copies) changes nothing."""
+        from . import cfg as cfgmod
+        from .dataflow import _live_names
+        params = {a.arg for a in node.args.posonlyargs + node.args.args + node.args.kwonlyargs}
+        if node.args.vararg:
+            params.add(node.args.vararg.arg)
+        if node.args.kwarg:
+            params.add(node.args.kwarg.arg)
+        nested = [n for n in ast.walk(node) if isinstance(n, (ast.FunctionDef, ast.Lambda, ast.ClassDef, ast.GeneratorExp, ast.ListComp,
+                                                              ast.SetComp, ast.DictComp)) and n is not node]
+        captured = {x.id for n in nested for x in ast.walk(n) if isinstance(x, ast.Name)}
+        if any(isinstance(n, (ast.Global, ast.Nonlocal)) for n in ast.walk(node)):
+            return
+        for _ in range(8):
+            probe = FuncInfo(self.fi.module, node, self.fi.cls)
+            g = cfgmod.build(probe)
+            live = _live_names(g)
+            if live is None:
+                return
+            # bindings per name: (cfg node, 'copy' source name | None)
+            binds = {}
+            plain_ok = {}
+            for n in g.nodes:
+                a = n.ast
+                if a is None:
+                    continue
+                if n.kind == 'stmt' and isinstance(a, ast.Assign) and len(a.targets) == 1 and isinstance(a.targets[0], ast.Name):
+                    src = a.value.id if isinstance(a.value, ast.Name) else None
+                    binds.setdefault(a.targets[0].id, []).append((n, src))
+                    continue
+                stored = set()
+                if n.kind == 'for' and isinstance(a, ast.For):
+                    stored = {x.id for x in ast.walk(a.target) if isinstance(x, ast.Name)}
+                elif n.kind in ('stmt', 'with', 'except', 'handler') or True:
+                    if isinstance(a, (ast.For, ast.While, ast.If, ast.Try, ast.With)):
+                        stored = set()
+                        if isinstance(a, ast.With):
+                            stored = {x.id for it in a.items if it.optional_vars is not None for x in ast.walk(it.optional_vars) if isinstance(x, ast.Name)}
+                    else:
+                        stored = {x.id for x in ast.walk(a) if isinstance(x, ast.Name) and isinstance(x.ctx, (ast.Store, ast.Del))}
+                        if isinstance(a, ast.ExceptHandler) and a.name:
+                            stored.add(a.name)
+                for nm in stored:
+                    plain_ok[nm] = False
+            for h in ast.walk(node):
+                if isinstance(h, ast.ExceptHandler) and h.name:
+                    plain_ok[h.name] = False
+            done = False
+            for y, lst in sorted(binds.items()):
+                if done:
+                    break
+                for n, x in lst:
+                    if x is None or x == y or plain_ok.get(x) is False or plain_ok.get(y) is False:
+                        continue
+                    if x in captured or y in captured or (x not in binds and x not in params):
+                        continue
+                    if y in params:
+                        continue
+
+                    def interferes(a_, b_):
+                        # a binding of a_ (not a copy of b_) while b_ is live afterwards
+                        for n2, src2 in binds.get(a_, []):
+                            if src2 == b_:
+                                continue
+                            out_live = set()
+                            for s_, lab in g.succ[n2.id]:
+                                if lab in ('exc', 'raise'):
+                                    continue
+                                out_live |= live.get(s_, set())
+                            if b_ in out_live:
+                                return True
+                        return False
+                    if interferes(x, y) or interferes(y, x):
+                        continue
+                    if x in params and any(True for _n in binds.get(y, []) if _n[1] != x) and False:
+                        continue
+                    # y live at entry would read an unbound name: cannot happen in running code
+                    # the surviving name: a parameter, else a name of the function as written, else the source of the copy
+                    def rank(nm):
+                        return (0 if nm in params else 1 if nm in self.caller_names else 2 if '__' not in nm else 3)
+                    keep, drop = (x, y) if rank(x) <= rank(y) else (y, x)
+                    if drop in params:
+                        continue
+
+                    class Ren(ast.NodeTransformer):
+                        def visit_Name(self_, nd):
+                            if nd.id == drop:
+                                return ast.copy_location(ast.Name(id=keep, ctx=nd.ctx), nd)
+                            return nd
+
+                        def visit_FunctionDef(self_, nd):
+                            return nd if nd is not node else self_.generic_visit(nd)
+
+                        def visit_Assign(self_, nd):
+                            self_.generic_visit(nd)
+                            if len(nd.targets) == 1 and isinstance(nd.targets[0], ast.Name) and isinstance(nd.value, ast.Name) and \
+                                    nd.targets[0].id == nd.value.id:
+                                return None
+                            return nd
+                    Ren().visit(node)
+                    _fill_empty([node])
+                    ast.fix_missing_locations(node)
+                    done = True
+                    break
+            if not done:
+                return
+
+    def _scalarise_tuples(self, node):
+        """A local name that is only ever bound to tuple displays of one length and only ever read item by item (`v[0]`, `a, b = v`)
+        is replaced by one local per item:  v = (e0, e1) ==> v__0 = e0; v__1 = e1 ;  v[1] ==> v__1 ;  a, b = v ==> a, b = (v__0, v__1).
+        Exact: the items are evaluated in the same order, a tuple cannot change, and nothing else can see the tuple object."""
+        params = {a.arg for a in node.args.posonlyargs + node.args.args + node.args.kwonlyargs}
+        parents = {}
+        for n in ast.walk(node):
+            for c in ast.iter_child_nodes(n):
+                parents[c] = n
+        nested = [n for n in ast.walk(node) if isinstance(n, (ast.FunctionDef, ast.Lambda, ast.ClassDef)) and n is not node]
+        captured = {x.id for n in nested for x in ast.walk(n) if isinstance(x, ast.Name)}
+        stores, loads = {}, {}
+        for n in ast.walk(node):
+            if isinstance(n, ast.Name):
+                (stores if isinstance(n.ctx, (ast.Store, ast.Del)) else loads).setdefault(n.id, []).append(n)
+        changed = False
+        for v, sts in sorted(stores.items()):
+            if v in params or v in captured or v not in loads:
+                continue
+            arity = None
+            ok = True
+            for st in sts:
+                p = parents.get(st)
+                if not (isinstance(p, ast.Assign) and len(p.targets) == 1 and p.targets[0] is st and isinstance(p.value, ast.Tuple) and
+                        not any(isinstance(e, ast.Starred) for e in p.value.elts)):
+                    ok = False
+                    break
+                if any(isinstance(x, ast.Name) and x.id == v for x in ast.walk(p.value)):
+                    ok = False
+                    break
+                if arity is None:
+                    arity = len(p.value.elts)
+                elif arity != len(p.value.elts):
+                    ok = False
+                    break
+            if not ok or not arity:
+                continue
+            for ld in loads[v]:
+                p = parents.get(ld)
+                if isinstance(p, ast.Subscript) and p.value is ld and isinstance(p.ctx, ast.Load):
+                    ix = p.slice
+                    if isinstance(ix, ast.UnaryOp) and isinstance(ix.op, ast.USub) and isinstance(ix.operand, ast.Constant) and \
+                            isinstance(ix.operand.value, int) and 1 <= ix.operand.value <= arity:
+                        continue
+                    if isinstance(ix, ast.Constant) and isinstance(ix.value, int) and not isinstance(ix.value, bool) and 0 <= ix.value < arity:
+                        continue
+                    ok = False
+                    break
+                if isinstance(p, ast.Assign) and p.value is ld and len(p.targets) == 1 and isinstance(p.targets[0], (ast.Tuple, ast.List)) and \
+                        len(p.targets[0].elts) == arity and not any(isinstance(e, ast.Starred) for e in p.targets[0].elts):
+                    continue
+                ok = False
+                break
+            if not ok:
+                continue
+            names = ['%s__%d' % (v, i) for i in range(arity)]
+            if any(nm in stores or nm in loads for nm in names):
+                continue
+
+            class R(ast.NodeTransformer):
+                def visit_FunctionDef(self_, n):
+                    return self_.generic_visit(n) if n is node else n
+
+                def visit_Assign(self_, n):
+                    if len(n.targets) == 1 and isinstance(n.targets[0], ast.Name) and n.targets[0].id == v and isinstance(n.value, ast.Tuple):
+                        self_.generic_visit(n.value)
+                        return [ast.copy_location(ast.Assign(targets=[ast.Name(id=nm, ctx=ast.Store())], value=e), n)
+                                for nm, e in zip(names, n.value.elts)]
+                    self_.generic_visit(n)
+                    if isinstance(n.value, ast.Name) and n.value.id == v:
+                        n.value = ast.copy_location(ast.Tuple(elts=[ast.Name(id=nm, ctx=ast.Load()) for nm in names], ctx=ast.Load()), n.value)
+                    return n
+
+                def visit_Subscript(self_, n):
+                    if isinstance(n.value, ast.Name) and n.value.id == v and isinstance(n.ctx, ast.Load):
+                        ix = n.slice
+                        k = ix.value if isinstance(ix, ast.Constant) else arity - ix.operand.value
+                        return ast.copy_location(ast.Name(id=names[k], ctx=ast.Load()), n)
+                    return self_.generic_visit(n)
+            R().visit(node)
+            ast.fix_missing_locations(node)
+            self.desugared += 1
+            changed = True
+            break          # positions changed: one name per call, the fixpoint loop comes back
+        return changed
+
+    def _fold_sequence_markers(self, node):
+        """`__sequence__(x)` (left by the normal form of `match x: case [..]`) is True when every binding of the local x is a
+        list / tuple display, a list comprehension or a call that returns a list"""
+        marks = [n for n in ast.walk(node) if isinstance(n, ast.Call) and isinstance(n.func, ast.Name) and n.func.id == '__sequence__'
+                 and len(n.args) == 1 and isinstance(n.args[0], ast.Name)]
+        if not marks:
+            return
+        params = {a.arg for a in node.args.posonlyargs + node.args.args + node.args.kwonlyargs}
+
+        def listy(e):
+            if isinstance(e, (ast.List, ast.Tuple, ast.ListComp)):
+                return True
+            if isinstance(e, ast.Call):
+                if isinstance(e.func, ast.Name) and e.func.id in ('list', 'tuple', 'sorted'):
+                    return True
+                if isinstance(e.func, ast.Attribute) and e.func.attr in ('split', 'rsplit', 'splitlines', 'partition', 'rpartition'):
+                    return True
+            return False
+        known = {}
+        for m in marks:
+            x = m.args[0].id
+            if x in known:
+                continue
+            ok = x not in params
+            for n in ast.walk(node):
+                if isinstance(n, ast.Name) and n.id == x and isinstance(n.ctx, (ast.Store, ast.Del)):
+                    p = getattr(n, '_parent', None)
+                    if not (isinstance(p, ast.Assign) and len(p.targets) == 1 and p.targets[0] is n and listy(p.value)):
+                        ok = False
+            known[x] = ok
+
+        class F(ast.NodeTransformer):
+            def visit_Call(self_, n):
+                if n in marks and known.get(n.args[0].id):
+                    return ast.copy_location(ast.Constant(value=True), n)
+                return self_.generic_visit(n)
+
+            def visit_BoolOp(self_, n):
+                self_.generic_visit(n)
+                if isinstance(n.op, ast.And):
+                    vals = [v for v in n.values if not (isinstance(v, ast.Constant) and v.value is True)]
+                    if len(vals) != len(n.values):
+                        if not vals:
+                            return ast.copy_location(ast.Constant(value=True), n)
+                        return vals[0] if len(vals) == 1 else ast.copy_location(ast.BoolOp(op=ast.And(), values=vals), n)
+                return n
+        for n in ast.walk(node):
+            for c in ast.iter_child_nodes(n):
+                c._parent = n
+        F().visit(node)
+        ast.fix_missing_locations(node)
+
     def _split_tuple_copies(self, stmts):
         """t = (a, b); x, y = t   ==>   x, y = (a, b)      (t used nowhere else)
            x, y = (a, b)           ==>   x = a; y = b       (a, b names / constants none of which is x or y)"""
@@ -1293,6 +1619,21 @@ class Flattener(object):
                     nxt.value = s.value
                     s = nxt
                     i += 1
+            if isinstance(s, ast.Assign) and len(s.targets) == 1 and isinstance(s.targets[0], ast.Tuple) and isinstance(s.value, ast.Tuple) and \
+                    len(s.targets[0].elts) == len(s.value.elts) and \
+                    all(isinstance(t_, ast.Name) or (isinstance(t_, ast.Attribute) and isinstance(t_.value, ast.Name) and t_.value.id == 'self')
+                        for t_ in s.targets[0].elts) and \
+                    all(isinstance(v_, (ast.Name, ast.Constant)) for v_ in s.value.elts) and \
+                    any(isinstance(t_, ast.Attribute) for t_ in s.targets[0].elts):
+                # self.a, x = (p, q): the right-hand side is made of names / constants, none of them a target: item by item
+                tn_ = {t_.id for t_ in s.targets[0].elts if isinstance(t_, ast.Name)} | {'self'}
+                vn_ = {v_.id for v_ in s.value.elts if isinstance(v_, ast.Name)}
+                if not (tn_ & vn_):
+                    for t_, v_ in zip(s.targets[0].elts, s.value.elts):
+                        out.append(ast.copy_location(ast.Assign(targets=[t_], value=v_), s))
+                    self.desugared += 1
+                    i += 1
+                    continue
             if isinstance(s, ast.Assign) and len(s.targets) == 1 and isinstance(s.targets[0], ast.Tuple) and isinstance(s.value, ast.Tuple) and \
                     len(s.targets[0].elts) == len(s.value.elts) and all(isinstance(t_, ast.Name) for t_ in s.targets[0].elts) and \
                     all(_pure(v_) for v_ in s.value.elts):
@@ -1892,6 +2233,16 @@ class Flattener(object):
                     ast.fix_missing_locations(x_)
                 self.desugared += 1
                 return [init] + self.desugar([loop])
+        # for x in itertools.chain(A, B): BODY  is the same pair of loops (chain is lazy: B is iterated when A is exhausted, exactly as
+        # the second loop does; A and B name the same objects as long as BODY does not re-bind them)
+        if isinstance(s, ast.For) and isinstance(s.iter, ast.Call) and call_name(s.iter) == 'chain' and len(s.iter.args) == 2 and \
+                not s.iter.keywords and not s.orelse and not _contains(s.body, ast.Break) and \
+                (isinstance(s.iter.func, ast.Name) or (isinstance(s.iter.func, ast.Attribute) and isinstance(s.iter.func.value, ast.Name)
+                                                        and s.iter.func.value.id == 'itertools')) and \
+                all(isinstance(p_, (ast.Name, ast.Attribute)) for p_ in s.iter.args) and \
+                not ({n.id for p_ in s.iter.args for n in ast.walk(p_) if isinstance(n, ast.Name)} &
+                     {n.id for b_ in s.body for n in ast.walk(b_) if isinstance(n, ast.Name) and isinstance(n.ctx, ast.Store)}):
+            s.iter = ast.copy_location(ast.BinOp(left=s.iter.args[0], op=ast.Add(), right=s.iter.args[1]), s.iter)
         # for x in A + B: BODY    ==>    for x in A: BODY;  for x in B: BODY      (no break in BODY; A and B are evaluated first
         # in both forms when they are names - otherwise only when evaluating them is pure)
         if isinstance(s, ast.For) and isinstance(s.iter, ast.BinOp) and isinstance(s.iter.op, ast.Add) and not s.orelse and \
@@ -2130,11 +2481,22 @@ class Flattener(object):
             node.body = self._forward_generator_temps(node.body)
             node.body = self.lower_comprehensions(node.body)
             node.body = self.rewrite_block(node.body, self.fi.cls, [self.fi.key])
+            for _k in range(6):
+                if not self._scalarise_tuples(node):
+                    break
+            self._fold_sequence_markers(node)
             if ast.dump(node) == shape:
                 break
         if self.desugared != before and (self.fi.key + '::<desugared>') not in self.inlined:
             self.inlined.append(self.fi.key + '::<desugared>')
         ast.fix_missing_locations(node)
+        if self.inlined:
+            try:
+                self._coalesce_batons(node)
+            except RecursionError:
+                raise
+            except Exception:
+                pass
         for n in ast.walk(node):
             for child in ast.iter_child_nodes(n):
                 child._parent = n
@@ -2145,6 +2507,11 @@ class Flattener(object):
 def _const_truth(t):
     if isinstance(t, ast.Constant) and (isinstance(t.value, bool) or t.value is None):
         return bool(t.value)
+    # nothing is a member of an empty display: `x in ()` is False whatever the name x holds
+    if isinstance(t, ast.Compare) and len(t.ops) == 1 and isinstance(t.ops[0], (ast.In, ast.NotIn)) and \
+            isinstance(t.left, (ast.Name, ast.Constant)) and isinstance(t.comparators[0], (ast.Tuple, ast.List, ast.Set)) and \
+            not t.comparators[0].elts:
+        return isinstance(t.ops[0], ast.NotIn)
     if isinstance(t, ast.Compare) and len(t.ops) == 1 and isinstance(t.left, ast.Constant) and isinstance(t.left.value, (str, int)) \
             and not isinstance(t.left.value, bool):
         r, op = t.comparators[0], t.ops[0]
@@ -2163,6 +2530,11 @@ def _const_truth(t):
 def _fold_constant_tests(stmts):
     out = []
     for s in stmts:
+        # a comprehension condition that is always true filters nothing
+        if not isinstance(s, (ast.FunctionDef, ast.ClassDef)):
+            for n in ast.walk(s):
+                if isinstance(n, ast.comprehension) and n.ifs:
+                    n.ifs = [c for c in n.ifs if _const_truth(c) is not True]
         if isinstance(s, ast.If):
             r = _const_truth(s.test)
             if r is not None:
